@@ -33,6 +33,9 @@ type PropCfg struct {
 	Thorough    []string `json:"thorough_extra,omitempty"`
 	Replay      string   `json:"replay,omitempty"`
 	Lean        []LeanCfg `json:"lean,omitempty"`
+	// BatteryQuick: run the replay harness's battery in the quick tier too. Used where a part of the property lives in
+	// code outside the verified subset (reflection): a bounded stand-in, listed under `bounded`, never counted as proved.
+	BatteryQuick bool `json:"battery_quick,omitempty"`
 }
 
 func main() {
@@ -383,7 +386,7 @@ func cmdCheck(args []string) int {
 	// with the old obligation name and no model searches its whole input neighbourhood); a reproduction means the
 	// defect is back, whatever the contracts say
 	canaries := []any{}
-	if *tier == "thorough" {
+	if *tier == "thorough" || cfg.BatteryQuick {
 		h := filepath.Join(*verif, "config", "replay", *prop+"_test.go")
 		if _, err := os.Stat(h); err == nil {
 			// the harness's whole battery once (a bounded test of the real code against the harness's oracle; it is
@@ -392,7 +395,7 @@ func cmdCheck(args []string) int {
 				rf := ReplayFile{Property: *prop, Obligation: "battery", Kind: "battery", Status: "battery", Model: map[string]string{}, Harness: h}
 				out, ok := runHarness(*verif, *repo, *prop, h, &rf)
 				canaries = append(canaries, map[string]any{"obligation": "battery (bounded test of the real code by " + filepath.Base(h) + ")", "reproduced": ok})
-				cfg.Bounded = append(cfg.Bounded, "replay battery "+filepath.Base(h)+" run on the real code in the thorough tier: a finite set of inputs/histories against an oracle written from the property statement (bounded, not counted as proved)")
+				cfg.Bounded = append(cfg.Bounded, "replay battery "+filepath.Base(h)+" run on the real code (thorough tier; also quick where the property has a part outside the verified subset): a finite set of inputs/histories against an oracle written from the property statement (bounded, not counted as proved)")
 				if ok {
 					rf.TestOutput, rf.Reproduced = trunc(out, 8000), true
 					rd := *replayDir
@@ -409,7 +412,7 @@ func cmdCheck(args []string) int {
 				}
 			}
 			for _, k := range kf.Findings {
-				if k.Property != *prop || k.Status != "fixed" {
+				if k.Property != *prop || k.Status != "fixed" || *tier != "thorough" {
 					continue
 				}
 				rf := ReplayFile{Property: *prop, Obligation: k.Obligation, Kind: "canary", Status: "canary", Model: map[string]string{}, Harness: h}
